@@ -4,6 +4,8 @@
   C03-COUNT  every partition barrier (DelayedPartitionCount::set, PartitionWakers::init_for_partitions, waker-table resize,
              remaining_inputs) in create_partition_*_states / prepare_for_partitions is initialised with the `partitions`
              parameter itself — not a constant, not an arithmetic variation
+  C03-LIMIT  PhysicalLimit::poll_execute (one offset/count budget shared by all partitions): every path that skips rows because
+             remaining_offset > 0 writes remaining_offset, every path that emits rows writes remaining_count
 Not decided: that results are equal across configurations (a statement about values)."""
 import re
 from .framework import RuleResult
@@ -161,9 +163,89 @@ def rule_count(facts):
     return r
 
 
+LIMIT_FN = "<glaredb_core::execution::operators::limit::PhysicalLimit as glaredb_core::execution::operators::ExecuteOperator>::poll_execute"
+
+
+def rule_limit(facts):
+    """LIMIT/OFFSET keep one budget pair (remaining_offset, remaining_count) shared by all partitions behind a mutex. Whatever a
+    call consumes from the current batch has to be taken off the budget before it returns, otherwise the rows produced depend on
+    how the input is cut into batches and spread over partitions:
+      (a) on every path from the `remaining_offset > 0` edge to a return, remaining_offset is written;
+      (b) every path through a call that hands rows to `output` (Batch::clone_from_other) writes remaining_count."""
+    r = RuleResult("C03-LIMIT", "PhysicalLimit::poll_execute: the shared offset/count budget is updated on every path that skips or emits rows", floor=4)
+    rec = facts.fn(LIMIT_FN)
+    if rec is None:
+        r.missing_anchor("PhysicalLimit::poll_execute")
+        return r
+    fn = Fn(rec)
+    r.functions.add(fn.id)
+
+    def writes(field):
+        out = set()
+        for b, i, pl, rv, ln in fn.assigns():
+            fl = [p for p in pl[1] if isinstance(p, list) and p[0] == "f" and len(p) > 2]
+            if fl and fl[-1][1] == field and fl[-1][2].endswith("limit::StateInner"):
+                out.add(b)
+        return out
+
+    w_off, w_cnt = writes("remaining_offset"), writes("remaining_count")
+    if not w_off or not w_cnt:
+        r.missing_anchor("writes of StateInner::remaining_offset / remaining_count")
+        return r
+    exits = set(fn.exits)
+    # error propagation (`?`) leaves the statement failed; only successful returns count
+    err = {c.bb for c in fn.calls() if c.decl.endswith("FromResidual::from_residual")}
+    w_off, w_cnt = w_off | err, w_cnt | err
+    # (a)
+    found = False
+    for b, i, pl, rv, ln in fn.assigns():
+        if rv[0] == "bin" and rv[1] == "Gt" and (op_const(rv[3]) or {}).get("v") == 0 and rv[2][0] in ("c", "m"):
+            o = fn.origin(rv[2], at=b)
+            fl = [p for p in (o[2] if len(o) > 2 and isinstance(o[2], list) else []) if isinstance(p, list) and p[0] == "f" and len(p) > 2]
+            if not (fl and fl[-1][1] == "remaining_offset"):
+                continue
+            t = fn.term(b)
+            if t[0] != "switch":
+                continue
+            for v, tgt in switch_edges(t):
+                if v != 0 or (v == 0 and False):
+                    pass
+            true_tgts = [tgt for v, tgt in switch_edges(t) if v != 0] or []
+            # `switch [0 → else]; otherwise → then`: the non-zero edge is the otherwise target
+            if not true_tgts:
+                true_tgts = [t[3]] if isinstance(t[3], int) else []
+            for tgt in true_tgts:
+                found = True
+                esc = fn.reachable_from(tgt, avoid=w_off) & exits
+                r.inst({"clause": "offset budget written on every path after `remaining_offset > 0`", "line": ln, "unwritten_exits": len(esc)}, not esc)
+                if esc:
+                    r.violate(fn.id, "remaining_offset-not-consumed", "a path that skips rows because remaining_offset > 0 returns without updating "
+                              "remaining_offset: the next batch (of any partition) is cut at the stale offset again — results depend on batch size "
+                              "and partition count", rec["file"], ln)
+    if not found:
+        r.missing_anchor("`remaining_offset > 0` test in PhysicalLimit::poll_execute")
+    # (b)
+    emits = [c for c in fn.calls() if c.name.endswith("Batch::clone_from_other")]
+    if not emits:
+        r.missing_anchor("Batch::clone_from_other calls in PhysicalLimit::poll_execute")
+    for c in emits:
+        r.call_sites += 1
+        # a path entry → emit → exit without any remaining_count write
+        before = fn.reachable_from(0, avoid=w_cnt)
+        bad = False
+        if c.bb in before and c.target is not None:
+            after = fn.reachable_from(c.target, avoid=w_cnt) & exits
+            bad = bool(after)
+        r.inst({"clause": "count budget written on every path that emits rows", "emit_line": c.line}, not bad)
+        if bad:
+            r.violate(fn.id, "remaining_count-not-consumed", "rows are handed to the output on a path that never updates remaining_count: "
+                      "the limit is applied per batch instead of per query", rec["file"], c.line)
+    return r
+
+
 def run(ctx):
     facts = ctx["facts"]
-    return [rule_range(facts), rule_count(facts)]
+    return [rule_range(facts), rule_count(facts), rule_limit(facts)]
 
 
 CLAIM = {
